@@ -10,7 +10,6 @@ Zone/_index/_index_dt/TzInfo logic):
                     moment.tz(naive, name) is an offset of a period of the raw record whose local
                     range contains L (ambiguous: either; skipped: either side of the gap).
 """
-import bisect
 import datetime as _dtm
 import marshal
 import os
@@ -49,7 +48,7 @@ ASSUMPTIONS = [
   'the check is about internal consistency with the bundled data, not agreement of the data with IANA',
 ]
 BUDGET = {'quick': dict(examples=24000, shards=8, max_seconds=60),
-          'thorough': dict(examples=800000, shards=16, max_seconds=600)}
+          'thorough': dict(examples=800000, shards=16, max_seconds=540)}
 
 US = 1000000
 HOUR = 3600 * US
